@@ -20,6 +20,21 @@ from clikit.utils._compat import decode
 from clikit.utils._compat import encode
 
 
+def _literal(text, tag):  # type: (str, str) -> str
+    """
+    Returns the markup that shows the text as it is between <tag> and its closing tag.
+    """
+    # The formatter drops a backslash that precedes a "<"
+    text = text.replace("\\<", "\\\\<")
+    # A "<" is cut off from what follows it, so that it is never read as a tag
+    text = text.replace("<", "<</><{}>".format(tag))
+    if text.endswith("\\"):
+        # A backslash right before a tag would escape that tag
+        text += " "
+
+    return text
+
+
 class Highlighter(object):
 
     TOKEN_DEFAULT = "token_default"
@@ -82,10 +97,6 @@ class Highlighter(object):
         current_type = None
         source_io = io.BytesIO(encode(source))
 
-        def escape(text):
-            # Source code is text, not markup: keep its "<" characters literal
-            return text.replace("<", "\\<")
-
         tokens = tokenize.tokenize(source_io.readline)
         line = ""
         for token_info in tokens:
@@ -98,9 +109,7 @@ class Highlighter(object):
             if token_type == tokenize.ENDMARKER:
                 # End of source
                 if current_type is not None:
-                    line += "<{}>{}</>".format(
-                        self._theme[current_type], escape(buffer)
-                    )
+                    line += self._chunk(current_type, buffer)
 
                 lines.append(line)
                 break
@@ -110,9 +119,7 @@ class Highlighter(object):
                 if diff > 1:
                     lines += [""] * (diff - 1)
 
-                line += "<{}>{}</>".format(
-                    self._theme[current_type], escape(buffer.rstrip("\n"))
-                )
+                line += self._chunk(current_type, buffer.rstrip("\n"))
 
                 # New line
                 lines.append(line)
@@ -145,7 +152,7 @@ class Highlighter(object):
                 buffer += token_info.line[current_col : start[1]]
 
             if current_type != new_type:
-                line += "<{}>{}</>".format(self._theme[current_type], escape(buffer))
+                line += self._chunk(current_type, buffer)
                 buffer = ""
                 current_type = new_type
 
@@ -154,11 +161,7 @@ class Highlighter(object):
                 lines.append(line)
                 token_lines = token_string.split("\n")
                 for token_line in token_lines[1:-1]:
-                    lines.append(
-                        "<{}>{}</>".format(
-                            self._theme[current_type], escape(token_line)
-                        )
-                    )
+                    lines.append(self._chunk(current_type, token_line))
 
                 current_line = end[0]
                 buffer = token_lines[-1][: end[1]]
@@ -170,6 +173,12 @@ class Highlighter(object):
             current_line = lineno
 
         return lines
+
+    def _chunk(self, token_type, text):
+        # Source code is text, not markup
+        style = self._theme[token_type]
+
+        return "<{}>{}</>".format(style, _literal(text, style))
 
     def line_numbers(self, lines, mark_line=None):
         max_line_length = max(3, len(str(len(lines))))
@@ -242,7 +251,7 @@ class ExceptionTrace(object):
     def render(self, io, simple=False):  # type: (IO, bool) -> None
         if simple:
             io.write_line(
-                "<error>{}</error>".format(self._escape(str(self._exception)))
+                "<error>{}</error>".format(_literal(str(self._exception), "error"))
             )
             return
 
@@ -251,15 +260,6 @@ class ExceptionTrace(object):
 
         with io.increment_indent(2):
             return self._render_exception(io, self._exception)
-
-    def _escape(self, text):  # type: (str) -> str
-        # The message is text, not markup: keep its "<" characters literal
-        text = text.replace("<", "\\<")
-        if text.endswith("\\"):
-            # A backslash right before a tag would escape that tag
-            text += " "
-
-        return text
 
     def _render_legacy(self, io):
         if hasattr(self._exception, "__traceback__"):
@@ -288,11 +288,11 @@ class ExceptionTrace(object):
 
         self._render_line(
             io,
-            "<error>{}</error>".format(self._escape(inspector.exception_name)),
+            "<error>{}</error>".format(_literal(inspector.exception_name, "error")),
             True,
         )
         io.write_line("")
-        exception_message = self._escape(inspector.exception_message).replace(
+        exception_message = _literal(inspector.exception_message, "b").replace(
             "\n", "\n  "
         )
         self._render_line(io, "<b>{}</b>".format(exception_message))
@@ -306,9 +306,9 @@ class ExceptionTrace(object):
         self._render_line(
             io,
             "at <fg=green>{}</>:<b>{}</b> in <fg=cyan>{}</>".format(
-                self._escape(self._get_relative_file_path(frame.filename)),
+                _literal(self._get_relative_file_path(frame.filename), "fg=green"),
                 frame.lineno,
-                self._escape(frame.function),
+                _literal(frame.function, "fg=cyan"),
             ),
             True,
         )
@@ -398,11 +398,12 @@ class ExceptionTrace(object):
                         "<fg=yellow>{:>{}}</>  <fg=default;options=bold>{}</>:<b>{}</b> in <fg=cyan>{}</>".format(
                             i,
                             max_frame_length,
-                            self._escape(
-                                self._get_relative_file_path(frame.filename)
+                            _literal(
+                                self._get_relative_file_path(frame.filename),
+                                "fg=default;options=bold",
                             ),
                             frame.lineno,
-                            self._escape(frame.function),
+                            _literal(frame.function, "fg=cyan"),
                         ),
                         True,
                     )
